@@ -737,6 +737,19 @@ static void emplace_uint32(uint8_t *buffer, uint32_t d)
 size_t rtosc_bundle(char *buffer, size_t len, uint64_t tt, int elms, ...)
 {
     char *_buffer = buffer;
+    va_list va_size;
+
+    //Abort if the bundle cannot fit
+    size_t total_len = 8+8;
+    va_start(va_size, elms);
+    for(int i=0; i<elms; ++i)
+        total_len += 4+rtosc_message_length(va_arg(va_size, const char*), -1);
+    va_end(va_size);
+    if(total_len>len) {
+        memset(buffer, 0, len);
+        return 0;
+    }
+
     memset(buffer, 0, len);
     strcpy(buffer, "#bundle");
     buffer += 8;
